@@ -572,7 +572,11 @@ func (m *Machine) advanceClockTo(t *Term) {
 	if m.clock == nil {
 		m.now()
 	}
-	late := m.freshVar("late", SInt, big.NewInt(0), big.NewInt(1_000_000_000_000_000))
+	maxLate := big.NewInt(1_000_000_000_000_000)
+	if t, ok := m.ghost["timerlate"].(*Term); ok && t.IsConst() {
+		maxLate = t.iv
+	}
+	late := m.freshVar("late", SInt, big.NewInt(0), maxLate)
 	m.clock = tAdd(tIte(tCmp(">", t, m.clock), t, m.clock), late)
 }
 
